@@ -109,18 +109,19 @@ def html_root():
     head = st.builds(lambda a, k: {"k": "tag", "name": "head", "ws": True, "attrs": a, "kids": k}, ATTRS, st.lists(st.one_of(n, st.just({"k": "tag", "name": "title", "ws": True, "attrs": [], "kids": [{"k": "text", "s": "user"}]})), max_size=3))
     body = st.builds(lambda a, k: {"k": "tag", "name": "body", "ws": True, "attrs": a, "kids": k}, ATTRS, st.lists(n, max_size=3))
 
-    def mk(attrs, before, h, mid, b, after, ws):
+    def mk(attrs, before, h, mid, b, after, ws, body_first):
+        first, second = (b, h) if body_first else (h, b)
         kids = list(before)
-        if h is not None:
-            kids.append(h)
+        if first is not None:
+            kids.append(first)
         kids += mid
-        if b is not None:
-            kids.append(b)
+        if second is not None:
+            kids.append(second)
         kids += after
         return {"k": "tag", "name": "html", "ws": ws, "attrs": attrs, "kids": kids}
 
     side = st.lists(st.one_of(dep(), headc(), n), max_size=2)
-    return st.builds(mk, ATTRS, side, st.none() | head, side, st.none() | body, side, st.sampled_from([True, True, False]))
+    return st.builds(mk, ATTRS, side, st.none() | head, side, st.none() | body, side, st.sampled_from([True, True, False]), st.booleans())
 
 
 def case_strategy():
@@ -263,7 +264,15 @@ def body_assemble(case, note):
         "version-collision" if len(pre) > len(res) else "",
         "headc" if any("_headc" in d for d in res) else "",
         "no-deps" if not res else "",
+        "head-after-body" if _head_after_body(case["content"]) else "",
     )
+
+
+def _head_after_body(content):
+    if len(content) == 1 and content[0]["k"] == "tag" and content[0]["name"] == "html":
+        names = [k["name"] for k in content[0]["kids"] if k["k"] == "tag"]
+        return "head" in names and "body" in names and names.index("head") > names.index("body")
+    return False
 
 
 def _user_head_kids(content):
@@ -399,7 +408,7 @@ CLAUSES = [
         quick=700,
         thorough=10000,
         shards_quick=4,
-        required=("shape:html", "shape:body", "shape:fragment", "later-content", "user-head-with-dep", "kw-collides", "version-collision", "headc", "no-deps"),
+        required=("shape:html", "shape:body", "shape:fragment", "later-content", "user-head-with-dep", "kw-collides", "version-collision", "headc", "no-deps", "head-after-body"),
         rule="see RULE",
     ),
 ]
